@@ -114,21 +114,68 @@ def validFrame (f : Frame) : Bool :=
   decide (0 < f.w) && decide (0 < f.h) && (f.comps.length == 1 || f.comps.length == 3) &&
   f.comps.all (fun c => decide (1 ≤ c.H ∧ c.H ≤ 4 ∧ 1 ≤ c.V ∧ c.V ≤ 4))
 
+/-! ## parseSOF since fix PENDING:c15-grey-sampling-factors -/
+
+/-- `if numComponents == 1 { comp.H, comp.V = 1, 1 }`: the frame the rest of the decoder works with (MCU size,
+    component buffers, scan walk, convertToPixels).  `validFrame` is checked on the declared factors, before this. -/
+def parsedFrame (f : Frame) : Frame :=
+  match f.comps with
+  | [_] => { f with comps := [⟨1, 1⟩] }
+  | _ => f
+
+/-! ## decodeScan since fix PENDING:c15-noninterleaved-scans: a scan with ONE of SEVERAL components -/
+
+/-- `mcuCols = DivCeil(DivCeil(d.width*comp.H, d.mcuWidth/8), 8)` (`d.mcuWidth/8 = maxH`), likewise the rows -/
+def niCols (f : Frame) (c : Comp) : Nat := divCeil (divCeil (f.w * c.H) (maxH f)) 8
+def niRows (f : Frame) (c : Comp) : Nat := divCeil (divCeil (f.h * c.V) (maxV f)) 8
+
+/-- the (blockX, blockY) arguments of decodeBlock in a non-interleaved scan: `nh, nv = 1, 1`, one block per MCU -/
+def walkNI (f : Frame) (c : Comp) : List (Nat × Nat) :=
+  (List.range (niRows f c)).flatMap fun mcuY => (List.range (niCols f c)).map fun mcuX => (mcuX, mcuY)
+
+/-- `lastWriter` over an arbitrary decode order -/
+def lastWriterOn (wk : List (Nat × Nat)) (cw len addr : Nat) : Option Nat :=
+  (wk.zipIdx.filter (fun p =>
+      match writeOffset cw len p.1 with
+      | some off => decide (off ≤ addr ∧ addr < off + 64)
+      | none => false)).getLast?.map (·.2)
+
+/-- what baseline.Decode shows at pixel (x,y) for a component coded in a scan of its own (buffers and
+    convertToPixels as in `shown`; only the decode order differs) -/
+def shownNI (f : Frame) (c : Comp) (x y : Nat) : Int :=
+  let cw := mcuCols f * c.H
+  let ch := mcuRows f * c.V
+  match readAddrWith (maxH f) (maxV f) cw ch c x y with
+  | none => -1
+  | some a => match lastWriterOn (walkNI f c) cw (cw * ch * 64) a with
+    | none => -1
+    | some k => k
+
+/-- T.81 A.2.3, non-interleaved: the component's data units are coded in raster order over its own
+    ⌈xi/8⌉ × ⌈yi/8⌉ grid, xi = ⌈X·Hi/Hmax⌉, yi = ⌈Y·Vi/Vmax⌉ -/
+def specOrdinalNI (f : Frame) (c : Comp) (x y : Nat) : Nat :=
+  let bx := x * c.H / maxH f / 8
+  let by' := y * c.V / maxV f / 8
+  by' * divCeil (divCeil (f.w * c.H) (maxH f)) 8 + bx
+
 /-! ## decodeScan's scan collection loop -/
 
 def isRST (b : Nat) : Bool := 0xD0 ≤ b && b ≤ 0xD7
 
-/-- bytes handed to the Huffman decoder: stuffed FF00 kept, FF RSTn dropped, stop at any other marker,
-    a trailing lone FF kept -/
-def scanFilter : List Nat → List Nat
-  | [] => []
-  | [b] => [b]
-  | b :: b2 :: rest =>
-    if b = 0xFF then
-      if b2 = 0x00 then b :: b2 :: scanFilter rest
-      else if isRST b2 then scanFilter rest
-      else []
-    else b :: scanFilter (b2 :: rest)
+/-- bytes handed to the Huffman decoder when the restart markers are ignored (no DRI): stuffed FF00 kept, FF RSTn
+    dropped, stop at any other marker, a trailing lone FF kept.  The loop reads one byte at a time; `ff` says that an
+    0xFF has been read and the byte that classifies it is still to come.  Since fix PENDING:c15-fill-bytes-before-marker
+    (`for err == nil && b2 == 0xFF { b2, err = reader.ReadByte() }`) further 0xFF bytes in that state are fill bytes
+    (T.81 B.1.1.2) and are skipped; if the data ends inside them a single FF is kept, as for a lone trailing FF. -/
+def scanFilterGo : List Nat → Bool → List Nat
+  | [], ff => if ff then [0xFF] else []
+  | b :: rest, false => if b = 0xFF then scanFilterGo rest true else b :: scanFilterGo rest false
+  | b :: rest, true =>
+    if b = 0xFF then scanFilterGo rest true
+    else if b = 0x00 then 0xFF :: 0x00 :: scanFilterGo rest false
+    else if isRST b then scanFilterGo rest false
+    else []
+def scanFilter (s : List Nat) : List Nat := scanFilterGo s false
 
 /-- every FF of the list is followed by 00 (entropy-coded data as T.81 B.1.1.5 prescribes) -/
 def wellStuffed : List Nat → Bool
@@ -138,17 +185,19 @@ def wellStuffed : List Nat → Bool
 
 /-! ## decodeScan since fix 4dc30ed: restart intervals -/
 
-/-- the collection loop: `cur` = scanData so far, `acc` = closed intervals.  FF00 kept, FF RSTn closes the current
-    interval, any other marker ends the scan, a trailing lone FF is kept -/
-def scanSplitAux : List Nat → List Nat → List (List Nat) → List (List Nat)
-  | [], cur, acc => acc ++ [cur]
-  | [b], cur, acc => acc ++ [cur ++ [b]]
-  | b :: b2 :: rest, cur, acc =>
-    if b = 0xFF then
-      if b2 = 0x00 then scanSplitAux rest (cur ++ [b, b2]) acc
-      else if isRST b2 then scanSplitAux rest [] (acc ++ [cur])
-      else acc ++ [cur]
-    else scanSplitAux (b2 :: rest) (cur ++ [b]) acc
+/-- the collection loop: `cur` = scanData so far, `acc` = closed intervals, `ff` as in `scanFilterGo`.  FF00 kept,
+    FF RSTn closes the current interval, any other marker ends the scan, 0xFF bytes between the FF and the byte that
+    classifies it are fill bytes and skipped (since fix PENDING:c15-fill-bytes-before-marker), a trailing lone FF is kept -/
+def scanSplitGo : List Nat → Bool → List Nat → List (List Nat) → List (List Nat)
+  | [], ff, cur, acc => acc ++ [if ff then cur ++ [0xFF] else cur]
+  | b :: rest, false, cur, acc =>
+    if b = 0xFF then scanSplitGo rest true cur acc else scanSplitGo rest false (cur ++ [b]) acc
+  | b :: rest, true, cur, acc =>
+    if b = 0xFF then scanSplitGo rest true cur acc
+    else if b = 0x00 then scanSplitGo rest false (cur ++ [0xFF, 0x00]) acc
+    else if isRST b then scanSplitGo rest false [] (acc ++ [cur])
+    else acc ++ [cur]
+def scanSplitAux (s cur : List Nat) (acc : List (List Nat)) : List (List Nat) := scanSplitGo s false cur acc
 
 /-- `intervals`; without DRI (`restartInt == 0`) they are joined again (RSTn ignored, as before the fix) -/
 def scanIntervals (restartInt : Nat) (s : List Nat) : List (List Nat) :=
